@@ -464,3 +464,7 @@ def check(case):
                                                              'reconfigured')
         case.close(after[4], before[4], rtol=0, atol=0, what='individual parameters of the first model after its '
                                                              'sibling was reconfigured')
+
+
+RULE += (' Classes and clauses added in later rounds of the seeded-change protocol (DESIGN 9.4) are named in REQUIRED '
+         'and in seeded/HISTORY.json; the evidence counts every one of them under classes.')
